@@ -88,7 +88,7 @@ def run(ctx, n=None):
                 'logs, no final newline, trace-only, blank lines at either end, NUL and CR bytes, regress markers and outcome keywords, cvs logs present/empty/'
                 'missing, comment/tags/target variants, missing lock file or step file; non-trivial = a report was produced with at least one section or '
                 'a non-ok status; distinct by content hash of the case')
-    n = n or ctx.budget(450, 20000)
+    n = n or ctx.budget(450, 12000)
     cases = rp_common.load_corpus('C05') + [rp_common.gen_case(ctx.rng) for _ in range(n)]
     res.samples = [{'mode': c['mode'], 'rows': c['rows'][:3]} for c in cases[:3]]
     res.assumptions = ['bytes 0..255; up to 17 rows and logs up to ~14 kB in the correspondence (the theorems have no bound)']
